@@ -11,5 +11,14 @@ static void *vf_memcpy(void *dst, const void *src, size_t n)
     return dst;
 }
 #define memcpy vf_memcpy
+/* CBMC's built-in strcpy demands that source and destination are different OBJECTS; cJSON_SetValuestring copies within whatever
+ * memory the caller provides, so the library TU gets a byte-loop strcpy as well */
+static char *vf_strcpy(char *dst, const char *src)
+{
+    size_t i = 0;
+    for (;; i++) { dst[i] = src[i]; if (src[i] == 0) break; }
+    return dst;
+}
+#define strcpy vf_strcpy
 #endif
 #endif
